@@ -294,7 +294,9 @@ class OdeModel:
         func = scalarise_records(func, lambda name, _pkg=pkg: record_fields(_pkg, name))
         func = inline_stmt_calls(func, _stmt_resolver)
         # `rhs, jac = self._stage(..)` with the stage put back leaves `rhs, jac = <the stage's locals>`: the same tables under one name
-        from .normalize import coalesce_copies
+        from .normalize import coalesce_copies, join_term_lists
+        # a table of piece lists joined once at the end (`T[i].append(t)` .. `["".join(p) for p in T]`) is the table of strings
+        func = join_term_lists(func)
         func = coalesce_copies(func)
         # a table kept as a list of rows and flattened once (`rows[r][c] += t` .. `list(chain.from_iterable(rows))`) is the flat table
         from .normalize import flatten_row_tables, flatten_keyed_tables
